@@ -61,6 +61,9 @@ func replay(args []string) {
 	}
 	defer os.RemoveAll(tdir)
 	session.TLSDir = tdir
+	if *family == "session" {
+		session.InstallHooks()
+	}
 	pipeconn.Limit = 1024 // like a small socket buffer: a peer that stops reading blocks the writer
 
 	f, err := os.Open(*in)
